@@ -125,6 +125,8 @@ pub struct BlockedInfo {
     pub tid: Tid,
     pub name: Option<String>,
     pub obj: Obj,
+    /// for a thread blocked on a mutex: the simulated thread that held it when it blocked
+    pub holder: Option<Tid>,
 }
 
 #[derive(Clone, Debug, PartialEq)]
@@ -185,6 +187,7 @@ struct ThreadRec {
     name: Option<String>,
     prio: u64,
     panicked: bool,
+    holder: Option<Tid>,
 }
 
 pub(crate) struct Rng(u64);
@@ -280,8 +283,8 @@ impl Sim {
             .iter()
             .enumerate()
             .filter_map(|(i, t)| match t.status {
-                Status::Blocked(o) => Some(BlockedInfo { tid: i, name: t.name.clone(), obj: o }),
-                Status::Settling => Some(BlockedInfo { tid: i, name: t.name.clone(), obj: Obj::Settle }),
+                Status::Blocked(o) => Some(BlockedInfo { tid: i, name: t.name.clone(), obj: o, holder: t.holder }),
+                Status::Settling => Some(BlockedInfo { tid: i, name: t.name.clone(), obj: Obj::Settle, holder: None }),
                 _ => None,
             })
             .collect();
@@ -536,6 +539,13 @@ pub fn block(obj: Obj, deadline_ns: Option<u64>) -> Wake {
     st.threads[c.tid].wake
 }
 
+/// Record who holds the mutex the caller is about to block on (diagnostics only).
+pub fn note_holder(holder: Option<Tid>) {
+    let Some(c) = ctx() else { return };
+    let mut st = c.sim.st.lock().unwrap();
+    st.threads[c.tid].holder = holder;
+}
+
 /// Mark every thread blocked on `obj` runnable (they re-check their condition when scheduled).
 pub fn wake_all(obj: Obj) {
     let Some(c) = ctx() else { return };
@@ -668,7 +678,7 @@ pub fn blocked_snapshot() -> Vec<BlockedInfo> {
         .iter()
         .enumerate()
         .filter_map(|(i, t)| match t.status {
-            Status::Blocked(o) => Some(BlockedInfo { tid: i, name: t.name.clone(), obj: o }),
+            Status::Blocked(o) => Some(BlockedInfo { tid: i, name: t.name.clone(), obj: o, holder: t.holder }),
             _ => None,
         })
         .collect()
@@ -696,6 +706,7 @@ pub(crate) fn register_thread(c: &Ctx, parker: Arc<Parker>, name: Option<String>
         name: name.clone(),
         prio,
         panicked: false,
+        holder: None,
     });
     let tid = st.threads.len() - 1;
     c.sim.emit(&st, SeamEvent::Spawn { tid, parent: c.tid, name });
@@ -795,6 +806,7 @@ pub fn run<F: FnOnce() + Send + 'static>(cfg: Config, f: F) -> Outcome {
             name: Some("sim-main".into()),
             prio,
             panicked: false,
+            holder: None,
         });
         sim.emit(&st, SeamEvent::Spawn { tid: 0, parent: 0, name: Some("sim-main".into()) });
     }
